@@ -169,6 +169,10 @@ def load_theory_cache(filename, username="master"):
 
     # Load all required macros and methods for this file.
     # Make table for this later.
+    # Importing these modules can load theories as a side effect. This
+    # function may be running while the theory of an importing file is
+    # being built, so the current theory is put back afterwards.
+    prev_thy = theory.thy
     if filename == 'logic':
         from prover import z3wrapper
     if filename == 'expr':
@@ -177,6 +181,7 @@ def load_theory_cache(filename, username="master"):
         from data import real
     if filename == 'hoare':
         from imperative import imp
+    theory.thy = prev_thy
 
     # Load all imported theories
     depend_list = get_import_order(cache['imports'], username)
